@@ -277,6 +277,22 @@ CHECKS['C01'] = dict(
               'bounded small-scope stand-in (real encoder -> real decoder and an independent strict parser)',
     note='K3/K5 (offset arithmetic and name-table soundness of write_name against a ghost wire layout) and K9 (per-type rdata '
          'inverse pairs) of the design were not built; struct packers as fixed-width big-endian encoders; utf-8 length as ulen')
+CHECKS['C15'] = dict(
+    text='"No exception escapes into the event loop" is proved as a chain of raises-nothing contracts, each discharged on the real body '
+         'against its callees\' contracts: datagram_received and _process_datagram_at_time (tuple unpacking, duplicate guard, dispatch), '
+         'handle_query_or_defer and _respond_query (deferral tables), QueryHandler.handle_assembled_query - where Zeroconf.async_send is '
+         'given the contract "raises NamePartTooLongException iff the builder holds a name that cannot be encoded" and only the '
+         'legacy-unicast reply (which echoes question names from the wire) can be such a builder: the obligation that this exception '
+         'is contained is refuted on the tree before the F6 repair and replayed with a witness datagram. The decoder (total: C02), '
+         'the record manager (C06), async_response and the reply builders (C11) and the reply queues (C12) enter through the contracts '
+         'those checks verify. Oversized datagrams: frame obligation (nothing read or written above 8966 bytes). A call-graph scan lists '
+         'every function reached from datagram_received with the check that owns its contract; four answer builders of the query '
+         'handler are listed there as unverified surface. Bounded (labelled so): 2 x ~1500 hostile datagrams delivered natively in one '
+         'stream to a real listener with a registered service.',
+    design_ref='DESIGN.md section 4 C15 and 9',
+    note='valid_info precondition on registered services (their own records encode); transports do not raise into sendto; "keeps '
+         'working afterwards" = the invariants preserved in C03/C05/C06/C12, not a separate obligation; _answer_question and the three '
+         '_add_*_answers builders are not under contract (unverified surface); 2-tuple address form')
 NOT_APPLICABLE = {
     'C07': 'end-to-end liveness over several hosts and lossy delivery: no per-function contract can express it '
            '(DESIGN.md section 6)',
